@@ -30,8 +30,13 @@ ZSEL = [("every cells reads Sub.z", None, None), ("c0 reads Sub.z, c2 reads Sub.
         ("c1 reads Sub.z, c2 reads Sub.zz", [False, True, False], [False, False, True])]
 
 
-def _body(V, P1, P2, T, z, g, q1, t1, ke, te, ek, w, recalc, second, zsel=0, pre_ref=False, zz=0):
-    d = Dag(N, zreaders=ZSEL[zsel][1], zzreaders=ZSEL[zsel][2])
+def _body(V, P1, P2, T, z, g, q1, t1, ke, te, ek, w, recalc, second, zsel=0, pre_ref=False, zz=0, umask=0):
+    cached = [not (umask >> i) & 1 for i in range(N)]
+    if not cached[ke]:
+        return True                     # only elements of cached cells can be assigned / cleared
+    if umask:
+        label("uncached=%s" % [i for i in range(N) if not cached[i]])
+    d = Dag(N, cached=cached, zreaders=ZSEL[zsel][1], zzreaders=ZSEL[zsel][2])
     d.bind(V, P1, P2, T, z, g)
     if zsel:
         label(ZSEL[zsel][0])
@@ -46,7 +51,7 @@ def _body(V, P1, P2, T, z, g, q1, t1, ke, te, ek, w, recalc, second, zsel=0, pre
     with notrace():
         before = d.held()
         universe = d.closure(q1, t1)
-        ok0 = before == set(universe)
+        ok0 = before == set(x for x in universe if cached[x[0]])          # uncached cells hold nothing
     if not check(ok0, "held == closure before edit", lambda: (before, universe)):
         return False
     if pre_ref:
@@ -82,6 +87,7 @@ def _body(V, P1, P2, T, z, g, q1, t1, ke, te, ek, w, recalc, second, zsel=0, pre
             for x in before:
                 if x[0] == ke and x not in d.inputs:
                     gone |= set(d.descendants(x[0], x[1], universe))
+        gone = gone & before
         expect = before - gone
         if ek == 0:
             d.inputs[(ke, te)] = w
@@ -156,6 +162,15 @@ def edit(v0: int, v1: int, v2: int, z: int, g: int, p1_1: int, p2_1: int, p1_2: 
     if (pre_ref and recalc) or (second == 4 and zsel == 0):
         return True
     return _body([v0, v1, v2], [-1, p1_1, p1_2], [-1, p2_1, p2_2], [T0, T1, T2], z, g, q1, t1, ke, te, ek, w, recalc, second, zsel, pre_ref, zz)
+
+
+@harness
+def through_uncached(v0: int, v1: int, v2: int, z: int, g: int, p1_1: int, p2_1: int, p1_2: int, p2_2: int,
+                     T0: bool, T1: bool, T2: bool, q1: int, t1: int, ke: int, te: int, ek: int, w: int, umask: int) -> bool:
+    """The same with some cells uncached: a held value computed from the edited element THROUGH uncached cells - at any depth
+    of the call stack - is discarded, everything else stays."""
+    q1, t1, ke, te, ek, umask = pick(q1, 0, 2), pick(t1, 0, TMAX), pick(ke, 0, 2), pick(te, 0, TMAX), pick(ek, 0, 4), pick(umask, 1, 7)
+    return _body([v0, v1, v2], [-1, p1_1, p1_2], [-1, p2_1, p2_2], [T0, T1, T2], z, g, q1, t1, ke, te, ek, w, False, -1, 0, False, 0, umask)
 
 
 @harness
@@ -334,4 +349,17 @@ QUERIES.append(
           natives=[dict(v=3, w=4, t=1, second=k_) for k_ in range(4)],
           bounds=lambda tier: {"model": "rate(t) <- inverse(t) = 100 // rate(t) <- total(t)", "t": "0..2", "v, w": "unbounded", "follow_up": ["none", "clear()", "reference change", "repair"]},
           outside=[]))
+QUERIES.append(
+    Query("through_uncached", through_uncached,
+          pre=dag_pre(N) + ["0 <= q1 < 3", "0 <= t1 <= 1", "0 <= ke < 3", "0 <= te <= 1", "0 <= ek < 5", "1 <= umask <= 7"],
+          partitions=lambda tier, seed: (product(q1=[2], t1=[1], ke=[0], te=[0, 1], ek=[0, 1], umask=[2, 1, 3], T0=[False], T1=[False]) +
+                                         product(q1=[2], t1=[1], ke=[2], te=[0], ek=[0, 3], umask=[1, 2], T0=[False]) +
+                                         product(q1=[2], t1=[1], ke=[0, 1], te=[0], ek=[0], umask=[4, 6, 5], T0=[False], T1=[False])) if tier == "quick" else
+          product(q1=[1, 2], t1=[1], ke=[0, 1, 2], te=[0, 1], ek=[0, 1, 3], umask=[1, 2, 3, 4, 5, 6]),
+          natives=[dict(_NAT, q1=2, t1=1, ke=0, te=0, ek=0, w=100, umask=2), dict(_NAT, q1=2, t1=1, ke=0, te=1, ek=1, w=100, umask=2), dict(_NAT, p2_2=-1, q1=2, t1=1, ke=0, te=0, ek=0, w=100, umask=2), dict(_NAT, p2_2=-1, T1=False, q1=2, t1=1, ke=0, te=0, ek=1, w=100, umask=2),
+                   dict(_NAT, T1=False, q1=2, t1=1, ke=0, te=0, ek=0, w=100, umask=2), dict(_NAT, q1=2, t1=1, ke=2, te=0, ek=0, w=100, umask=3),
+                   dict(_NAT, q1=2, t1=1, ke=1, te=0, ek=0, w=100, umask=4), dict(_NAT, T1=False, q1=2, t1=1, ke=0, te=0, ek=3, w=100, umask=6)],
+          bounds=lambda tier: {"cells": N, "t_max": TMAX, "uncached_masks": "non-empty subsets (quick: 7 of them on selected edits)", "edits": EDITS, "assigned_value": "unbounded int",
+                               "dag": "pointers symbolic; chains request -> cached -> uncached -> edited element at stack depth >= 2 included"},
+          outside=["recalculation option together with uncached cells"]))
 BUDGET = {"quick": 400, "thorough": 1200}
